@@ -49,4 +49,9 @@ def run(rep, fb, tier):
     _bd.rule_buffer_info_pair(rep, fb)
     _bd.rule_def_arg_order(rep, fb)
     __import__("vf.rules.binding", fromlist=["x"]).rule_stride_division(rep, fb)
+    __import__("vf.rules.pyrules3", fromlist=["x"]).rule_py_unused_local(rep)
+    __import__("vf.rules.pyrules3", fromlist=["x"]).rule_py_duplicate_operand(rep)
+    __import__("vf.rules.pyrules3", fromlist=["x"]).rule_py_recursion_keywords(rep)
+    __import__("vf.rules.pyrules3", fromlist=["x"]).rule_py_loop_derived(rep)
+    __import__("vf.rules.binding2", fromlist=["x"]).rule_binding_call_roles(rep, fb)
     rep.units = fb.units + ["src/awkward/operations/convert.py, highlevel.py, _util.py, partition.py (ast)"]
